@@ -53,8 +53,12 @@ func cfgFromIndex(i int64) wcfg {
 	w.level = allLevels[(k*7+k/10+rep)%len(allLevels)]
 	if hasSize {
 		w.size = 123
-		if k%3 == 0 {
+		switch (k + rep) % 3 {
+		case 0:
 			w.size = 1<<40 + 5
+		case 1:
+			// the descriptor's header checksum byte is 0x00
+			w.size = hcZeroSize(w.bs, w.bc && !w.legacy, w.cc && !w.legacy)
 		}
 	}
 	return w
@@ -180,9 +184,63 @@ func errClass(err error) string {
 	return "other"
 }
 
+// c02Coincidence: directed stream whose last block's size word equals the number of content
+// bytes in front of it (see coincidenceScript); read back by every reader.
+func c02Coincidence(c *Ctx, cfg wcfg, i int64, g *prng.Rng) {
+	for _, two := range []bool{false, true} {
+		steps, ok := coincidenceScript(c, g, cfg, two)
+		if !ok {
+			c.Count("coincidence_streams_not_built", 1)
+			continue
+		}
+		frame, input, err := writeScript(cfg, steps)
+		if err != nil {
+			c.Violation("writer-call-failed/coincidence", fmt.Sprintf("a Writer call failed on a healthy sink: %v [%s]", err, cfg), nil)
+			continue
+		}
+		c.Count("coincidence_streams_written", 1)
+		mode := "conc"
+		if cfg.conc == 1 {
+			mode = "seq"
+		}
+		det := func() map[string]interface{} {
+			var lens []int
+			for _, s := range steps {
+				lens = append(lens, len(s.data))
+			}
+			return map[string]interface{}{"config": cfg.String(), "input": "size-word-equals-decoded-total", "message_lengths": lens, "frame_len": len(frame), "frame_head": hexs(head(frame, 64))}
+		}
+		for _, rc := range concLevels {
+			for m := 0; m < numReadModes; m++ {
+				rr := readStream(c, frame, rc, m, cfg.blockMax(), g, gen.ReadPlain)
+				c.Count("streams_read", 1)
+				if rr.panicky {
+					continue
+				}
+				if rr.err != nil {
+					c.Violation("decode-error/"+errClass(rr.err)+"/"+sigFlags(cfg)+"/"+mode+"/size-word-equals-decoded-total", fmt.Sprintf("Reader(conc %d, %s) fails on the Writer's output: %v [%s, messages flushed so that a block's size word equals the bytes decoded so far]", rc, rdNames[m], rr.err, cfg), det())
+					continue
+				}
+				if !bytes.Equal(rr.out, input) {
+					if cfg.legacy && legacyTrailerAmbiguity(frame, rr.out, input) {
+						c.Violation("content-mismatch/legacy-block-size-equals-decoded-total", fmt.Sprintf("Reader(conc %d, %s) stops after %d of %d bytes with a clean end of stream: a legacy block's size word equals the number of bytes decoded so far and is taken for the kernel-style size trailer [%s, directed]", rc, rdNames[m], len(rr.out), len(input), cfg), det())
+						continue
+					}
+					c.Violation("content-mismatch/"+sigFlags(cfg)+"/"+mode+"/size-word-equals-decoded-total", fmt.Sprintf("Reader(conc %d, %s) returns %d bytes that differ from the %d-byte input [%s, messages flushed so that a block's size word equals the bytes decoded so far]", rc, rdNames[m], len(rr.out), len(input), cfg), det())
+					continue
+				}
+				c.Cell(cfg.cell() + "/size-word-equals-decoded-total/" + fmt.Sprint(two) + "/rconc" + fmt.Sprint(rc) + "/" + rdNames[m])
+			}
+		}
+	}
+}
+
 func c02Case(c *Ctx, i int64, prop string) {
 	cfg := cfgFromIndex(i)
 	g := c.Rng(i)
+	if prop == "C02" {
+		c02Coincidence(c, cfg, i, c.Rng(i, 0xC01C))
+	}
 	inputs := c02Inputs(c, cfg, i, g)
 	thorough := c.Tier == "thorough"
 	for ii, in := range inputs {
